@@ -432,7 +432,16 @@ func (e *Engine) evalValue(fr *frame, v ssa.Value) Value {
 				return PtrV{Obj: s.Obj, Path: s.Base}
 			}
 		}
-		panic(pathEnd{kind: endInconclusive, msg: "slice-to-array-pointer of sub-slice", site: e.where()})
+		// a view into the middle of a backing array cannot be expressed as a path:
+		// hand out a pointer to a copy of the n cells (exact for the read-only uses
+		// in the code under test: *(*[4]byte)(b) is loaded immediately)
+		arr := e.walk(s.Obj, s.Base).(*ArrayV)
+		cp := &ArrayV{E: make([]Value, n)}
+		for i := 0; i < n; i++ {
+			cp.E[i] = copyVal(arr.E[s.Off+i])
+		}
+		o := e.newObject(x.Type().(*types.Pointer).Elem(), cp, "")
+		return PtrV{Obj: o}
 	case *ssa.MakeInterface:
 		return IfaceV{T: x.X.Type(), V: e.get(fr, x.X)}
 	case *ssa.MakeClosure:
@@ -525,6 +534,19 @@ func (e *Engine) walk(o *Object, path []int) Value {
 func (e *Engine) load(p PtrV) Value {
 	if p.IsNil() {
 		panic(pathEnd{kind: endPanic, msg: "nil pointer dereference", site: e.where()})
+	}
+	if p.SymIdx != nil {
+		arr := e.walk(p.Obj, p.Path[:len(p.Path)-1]).(*ArrayV)
+		off := p.Path[len(p.Path)-1]
+		n := p.SymLen
+		if n == 0 {
+			n = len(arr.E) - off
+		}
+		v, ok := e.selectNoCheck(arr.E[off:off+n], p.SymIdx, p.SymType)
+		if !ok {
+			panic(internalf("symbolic-index load of non-scalar elements"))
+		}
+		return v
 	}
 	if p.As != nil {
 		return e.unsafeLoad(p)
@@ -808,6 +830,15 @@ func (e *Engine) indexAddr(fr *frame, x *ssa.IndexAddr) Value {
 	const msg = "index out of range"
 	switch b := base.(type) {
 	case SliceV:
+		if !idx.IsConst() && b.Len > 8 && b.Len <= 1024 && onlyLoaded(x) {
+			arr := e.walk(b.Obj, b.Base).(*ArrayV)
+			if allScalar(arr.E[b.Off : b.Off+b.Len]) {
+				e.checkIndex(idx, x.Index.Type(), b.Len)
+				_, signed, _ := scalarWidth(x.Index.Type())
+				i64 := term.Resize(idx, 64, signed)
+				return PtrV{Obj: b.Obj, Path: extPath(b.Base, b.Off), SymIdx: i64, SymType: types.Typ[types.Int], SymLen: b.Len}
+			}
+		}
 		i := e.boundInt(idx, x.Index.Type(), b.Len-1, msg)
 		return PtrV{Obj: b.Obj, Path: extPath(b.Base, b.Off+i)}
 	case PtrV:
@@ -815,6 +846,10 @@ func (e *Engine) indexAddr(fr *frame, x *ssa.IndexAddr) Value {
 			panic(pathEnd{kind: endPanic, msg: "nil pointer dereference", site: e.where()})
 		}
 		arr := e.walk(b.Obj, b.Path).(*ArrayV)
+		if !idx.IsConst() && len(arr.E) > 8 && len(arr.E) <= 1024 && onlyLoaded(x) && allScalar(arr.E) {
+			e.checkIndex(idx, x.Index.Type(), len(arr.E))
+			return PtrV{Obj: b.Obj, Path: extPath(b.Path, 0), SymIdx: idx, SymType: x.Index.Type()}
+		}
 		i := e.boundInt(idx, x.Index.Type(), len(arr.E)-1, msg)
 		return PtrV{Obj: b.Obj, Path: extPath(b.Path, i)}
 	}
@@ -850,6 +885,62 @@ func (e *Engine) indexOp(fr *frame, x *ssa.Index) Value {
 	panic(internalf("index of %T", base))
 }
 
+// onlyLoaded reports whether every use of the address is a load.
+func onlyLoaded(x *ssa.IndexAddr) bool {
+	refs := x.Referrers()
+	if refs == nil || len(*refs) == 0 {
+		return false
+	}
+	for _, r := range *refs {
+		u, ok := r.(*ssa.UnOp)
+		if !ok || u.Op != token.MUL {
+			if _, dbg := r.(*ssa.DebugRef); dbg {
+				continue
+			}
+			return false
+		}
+	}
+	return true
+}
+
+func allScalar(vs []Value) bool {
+	for _, v := range vs {
+		if _, ok := v.(*term.Term); !ok {
+			return false
+		}
+	}
+	return len(vs) > 0
+}
+
+// checkIndex forks into the panic path if the index can be out of range.
+func (e *Engine) checkIndex(idx *term.Term, ityp types.Type, n int) {
+	_, signed, _ := scalarWidth(ityp)
+	i64 := term.Resize(idx, 64, signed)
+	bad := term.Cmp(term.OpUle, term.Const(64, uint64(n)), i64)
+	if e.fork([]*term.Term{term.Not(bad), bad}) == 1 {
+		panic(pathEnd{kind: endPanic, msg: "index out of range (symbolic)", site: e.where()})
+	}
+}
+
+// selectNoCheck builds the ite chain for an index already known to be in range.
+func (e *Engine) selectNoCheck(elems []Value, idx *term.Term, ityp types.Type) (Value, bool) {
+	if !allScalar(elems) {
+		return nil, false
+	}
+	_, signed, _ := scalarWidth(ityp)
+	i64 := term.Resize(idx, 64, signed)
+	res := elems[len(elems)-1].(*term.Term)
+	for i := len(elems) - 2; i >= 0; i-- {
+		el := elems[i].(*term.Term)
+		if el == elems[i+1].(*term.Term) {
+			// same value as its right neighbour: the neighbour's test (idx <= i+1) covers it
+			continue
+		}
+		res = term.Ite(term.Cmp(term.OpUle, i64, term.Const(64, uint64(i))), el, res)
+	}
+	return res, true
+}
+
 // selectArray builds an ite chain for a symbolic index into scalar elements;
 // the out-of-range case still forks into a panic path.
 func (e *Engine) selectArray(elems []Value, idx *term.Term, ityp types.Type) (Value, bool) {
@@ -870,10 +961,9 @@ func (e *Engine) selectArray(elems []Value, idx *term.Term, ityp types.Type) (Va
 	res := elems[len(elems)-1].(*term.Term)
 	for i := len(elems) - 2; i >= 0; i-- {
 		el := elems[i].(*term.Term)
-		if el == res {
+		if el == elems[i+1].(*term.Term) {
 			continue
 		}
-		// note: skipping equal neighbours keeps the chain short for tables with runs
 		res = term.Ite(term.Cmp(term.OpUle, i64, term.Const(64, uint64(i))), el, res)
 	}
 	return res, true
